@@ -74,6 +74,23 @@ add('C14', 'exploration', 'Hypothesis deals through four encoder/decoder round t
     'compared with an independent renderer; random dealer under drawn seeds.',
     'Trusts vf/model/pbn.py.', '5/C14')
 
+add('C12', 'exploration', 'Hypothesis documents: writer -> json.loads + jsonschema + parser round trip (field-by-field, value-object types)',
+    'hypothesis-inprocess',
+    'Generated lists of 0-8 board results (any Unicode names, every contract form, arbitrary call lists, 0-13 tricks, '
+    'optional dda) are written, validated against the two shipped schemas with jsonschema, parsed back and compared '
+    'field by field including the types of the value objects, and re-read as board settings.',
+    'Trusts jsonschema Draft7 and the shipped schema files as the published schema.', '5/C12')
+add('C17', 'exploration', 'Hypothesis boards x generated file layouts rendered by an independent PBN renderer -> parser round trip',
+    'hypothesis-inprocess',
+    'JSON: writer -> parser round trip incl. schema validation. PBN: an independent renderer produces admissible '
+    'import files over the whole layout space named by the property; parsed from StringIO and from a text file.',
+    'Trusts vf/model/pbn.py as a renderer of admissible PBN 2.1 import files.', '5/C17')
+add('C18', 'exploration', 'Hypothesis result sequences: PbnWriter -> PbnParser round trip, line-length invariant',
+    'hypothesis-inprocess',
+    'Generated sequences of 1-6 board results through one PbnWriter; parse_all / parse_board_settings must return the '
+    'games one by one with the 15 mandatory tags and written values; every line <= 255 characters.',
+    'Names limited to the property alphabet and to lengths that fit on a line.', '5/C18')
+
 NOT_APPLICABLE = []
 
 ENGINES = [
